@@ -1,0 +1,19 @@
+//! Verification hook (feature `verif-hooks`, read only): colour tables and SGR payload helpers
+//! of the decoder, used by /verif property C06 (and C02/C04 payload checks).
+use super::{COLORS, CUBE, GREYS};
+use crate::{FaceModify, RGBA};
+
+/// xterm 256 colour palette as the decoder knows it: 16 named colours, cube levels, grey ramp
+pub fn palette_tables() -> ([RGBA; 16], [u8; 6], [u8; 24]) {
+    (COLORS, CUBE, GREYS)
+}
+
+/// private `sgr_face`: parameters of an SGR sequence (bytes between `ESC [` and `m`)
+pub fn sgr_face(data: &[u8]) -> FaceModify {
+    super::sgr_face(data)
+}
+
+/// private `number_decode`
+pub fn number_decode(data: &[u8]) -> Option<usize> {
+    super::number_decode(data)
+}
